@@ -14,7 +14,8 @@ RULE = ("mint: real dispensation BeginBlocker on the real keeper/bank, block his
         "coins arriving at the module account / pool in between. rewards: real clp EndBlocker over 1-3 sequential reward periods per schedule "
         "(lengths 1..12, gaps, allocation 0 / <30 / 1000 / up to 2^100, mod 0..6 and > length, distribute flag, default multiplier 0..2, one pool "
         "multiplier 0..2.4), four schedules in a row per chain (the accumulator left by one enters the next), 1-3 pools with changing depth incl. 0, "
-        "providers joining/leaving, one provider blocked (its share is burned). restart: full SifchainApp on a persistent DB through "
+        "providers joining/leaving (every pool keeps a provider), one provider blocked (its share is burned); a third of the chains 'tiny': one pool with 2-6 providers of equal units, "
+        "distribute mode, allocation 1..3 base units per block or 1..40 per period; after every EndBlocker: created = paid to providers + credited to pools, module growth = pool credits. restart: full SifchainApp on a persistent DB through "
         "BeginBlock/EndBlock/Commit, counter started 1..6 blocks below the cap, two adjacent reward periods, application object re-opened from "
         "the DB after 1/3 of the blocks. dispmsgs: the C11 message histories with the total supply compared across every message. "
         "rwedits: the reward-period list EDITED while a period runs, through real MsgAddRewardPeriodRequest messages (ValidateBasic, clp.NewHandler on a "
@@ -56,7 +57,7 @@ ASSUMPTIONS = [
 ]
 UNPROVED = [
     "bridge credits: whether consensus is reached (the oracle's threshold, whitelist, duplicate and conflicting-claim logic) is C05/C06 and enters the C20 model as environment values; the C20 theorem (bridge_credit_once) is about the rule that a finalised prophecy is never credited again, tied by the bridgecredit family.",
-    "'every rewarded coin ends up in a pool or a provider's account': not proved here (needs the clp pool/provider model: C01/C18); the model proves net created <= block distribution and the harness observes only the net supply change.",
+    "'every rewarded coin ends up in a pool or a provider's account': judged on the implementation after every EndBlocker (rewardsAccountedOK: created = paid to providers + credited to pools; module growth = pool credits) and trivially true of the issuance model (rewards_accounted_model: the transfer / burn outcome is an environment value); the per-provider split and pool solvency are C18 / C01. Observation: in distribute mode a pool WITHOUT any provider gets its reward credited to its native balance while the coins are burnt with the undistributed remainder — only reachable from a pool that has units but no provider, which C02's units invariant excludes; the generator keeps a provider in every pool.",
     "the `_partial` theorems (rewards_per_block/_per_period on fixed non-overlapping schedules; rewards_*_edits_partial under cleanSwitches) are about the model of the tree with only F10 repaired and are kept with their hypotheses and the decide'd witnesses overlap_residual / edit_midflight_residual; the claims for the current tree are rewards_per_block_all_histories / rewards_per_period_all_histories (no hypothesis on switching). The cumulative clause (rewards_entitlement) is stated for the F10-level model on a fixed list only.",
     "cap_const is a syntactic call-site fact (go/ast): an indirect mint through a new wrapper defined outside x/ and app/, or through reflection, is not seen. The dynamic side (messages_create_nothing + supply check on every dispensation message) covers the dispensation messages only; admin messages of other modules are C08/C10.",
     "restart: proved as 'the step functions are functions of the stored state' (mint_restart, rewards_restart) and exercised on the real app with re-opened DB; IAVL/commit durability itself is trusted.",
